@@ -37,6 +37,7 @@ OPERATORS = ["drop_end", "drop_colon", "open_paren", "dangling_operator", "two_s
 
 
 CONSTANT_NAMES = ["e", "pi", "oo", "inf", "nan", "zoo", "E", "I"]
+GENERATED_LIKE = ["_t0", "_t1", "_old0", "_r0"]  # what get_unique_var hands out first in a fresh process (finding C19-F1)
 
 
 def rename_variable(node, old, new):
@@ -87,7 +88,7 @@ def cases(draw, tier="quick"):
         assigned = sorted(L.stmts_assigned(prog["body"]))
         old = draw(st.sampled_from(assigned))
         goals = [{old: 1}] + draw(gen.goals_for(prog, meta, max_goals=1))
-        return {"what": "constant_name", "prog": prog, "goals": goals, "old": old, "new": draw(st.sampled_from(CONSTANT_NAMES)),
+        return {"what": "constant_name", "prog": prog, "goals": goals, "old": old, "new": draw(st.sampled_from(CONSTANT_NAMES + GENERATED_LIKE)),
                 "points": draw(gen.param_points(prog, 1))}
     kind = draw(st.sampled_from(["negative", "sum_gt_1", "explicit_sum_gt_1", "implicit_negative_three", "explicit_sum_lt_1"]))
     target = draw(st.sampled_from((meta["num"] or []) + list(meta["fin"]) or ["x"]))
@@ -380,32 +381,32 @@ def run_case(case, tier="quick"):
 def _constant_name(case, key, text, tl):
     """renaming a variable must not change the analysis: a name the CAS reads as a constant is either rejected or treated as the variable it is"""
     old, new = case["old"], case["new"]
-    tags = ["constant_name", "name:" + new]
+    tags = ["constant_name" if not new.startswith("_") else "generated_like_name", "name:" + new]
+    kind = "constant_name" if not new.startswith("_") else "generated_like_name"
     base = {"key": key, "tags": tags, "nontrivial": True}
     progB = rename_variable(case["prog"], old, new)
     goalsB = [rename_variable(g, old, new) for g in case["goals"]]
     textB = L.render_program(progB)
-    try:
-        with pd.time_limit(tl):
-            pd.set_settings()
-            pd.parse(textB)
-    except pd.CaseTimeout:
-        return dict(base, status="inconclusive", bucket="time_limit")
-    except Exception as e:
-        return dict(base, status="ok", counters={f"constant_name_rejected_with:{type(e).__name__}": 1})
     detail = {"text": textB, "variable": new, "original_text": text}
+    # the renamed text first: this forked process has not handed out any generated name yet, exactly like a command-line run on that file
+    errB = None
+    try:
+        pd.set_settings()
+        resB = _analyse(textB, goalsB, tl)
+    except pd.CaseTimeout:
+        return dict(base, status="inconclusive", bucket="polar_time_limit")
+    except Exception as e:
+        if "lark" in type(e).__module__ or "inputparser" in pd.refusal_bucket(e):
+            return dict(base, status="ok", counters={f"{kind}_rejected_with:{type(e).__name__}": 1})
+        errB = pd.refusal_bucket(e)
     try:
         resA = _analyse(text, case["goals"], tl)
     except pd.CaseTimeout:
         return dict(base, status="inconclusive", bucket="polar_time_limit")
     except Exception as e:
         return dict(base, status="refusal", bucket=pd.refusal_bucket(e), detail=str(e)[:200])
-    try:
-        resB = _analyse(textB, goalsB, tl)
-    except pd.CaseTimeout:
-        return dict(base, status="inconclusive", bucket="polar_time_limit")
-    except Exception as e:
-        return dict(base, status="violation", bucket="constant_name_accepted_then_failed", detail=dict(detail, error=pd.refusal_bucket(e)))
+    if errB is not None:
+        return dict(base, status="violation", bucket=kind + "_accepted_then_failed", detail=dict(detail, error=errB))
     env = case["points"][0] if case["points"] else {}
     subs = common.polar_subs(env, {})
     try:
@@ -423,14 +424,17 @@ def _constant_name(case, key, text, tl):
                     except (ValueError, KeyError, TypeError):
                         same = False
                     if not same:
-                        return dict(base, status="violation", bucket="constant_name_reinterpreted",
+                        return dict(base, status="violation", bucket=kind + "_reinterpreted",
                                     detail=dict(detail, goal=pd.monomial_to_str(gB), n=n, with_original_name=common.fmt(a), closed_form=str(eb)[:200]))
     except pd.CaseTimeout:
         return dict(base, status="inconclusive", bucket="evaluation_time_limit")
-    return dict(base, status="ok", counters={"constant_name_treated_as_variable": 1})
+    return dict(base, status="ok", counters={kind + "_treated_as_variable": 1})
 
 
 def classify(case, verdict):
+    # finding C19-F1: a user variable called like a generated one (_t1, _old0, ...) is merged with it
+    if (verdict.get("bucket") or "").startswith("generated_like_name_"):
+        return "user_variable_named_like_generated"
     return None
 
 
